@@ -232,6 +232,347 @@ def render(t, ind=2):
     raise Refuse("render " + h)
 
 
+# ---------------------------------------------------------------------------------------------
+# The ephemeral constant `integer::number` (double parameter -> int), `integer::cast`, and the
+# class / member tables of namespace vita::integer  ->  lean/Vita/C14/GenNum.lean
+#
+# `number::eval` / `number::init` mix `double` and `int`.  Only EXACT double operations are
+# translated (comparisons, isnan/isfinite, int -> double, double -> int); they become calls of the
+# exact bit-level model `Vita.B64` (Vita/C14/Model.lean).  The conversion double -> int is the
+# checked `B64.toInt` (a fault = undefined behaviour, C++17 [conv.fpint]); the function is a term
+# of `Except Fault Int`.  Rounding arithmetic on doubles is refused.
+# ---------------------------------------------------------------------------------------------
+import struct
+
+import prim_classes
+
+DBL_T = {"double", "vita::terminal_param_t", "const double", "const vita::terminal_param_t"}
+INT_T = {"int", "const int", "vita::integer::base_t", "const vita::integer::base_t"}
+VAL_T = ("vita::value_t", "std::variant<std::monostate, int, double, std::basic_string<char>>",
+         "variant<std::monostate, int, double, std::basic_string<char>>")
+
+
+def ntype(n):
+    t = qtype(n).replace("const ", "").strip()
+    if t in ("double", "vita::terminal_param_t"):
+        return "dbl"
+    if t in ("int", "vita::integer::base_t"):
+        return "int"
+    if t == "bool":
+        return "bool"
+    if t in VAL_T:
+        return "val"
+    raise Refuse("expression of unsupported type %r (%s)" % (qtype(n), n.get("kind")))
+
+
+class TrNum:
+    """expressions: k(text, type) -> text of the rest (CPS, because double -> int may fault)"""
+
+    def __init__(self, fields=()):
+        self.locals = {}
+        self.fields = set(fields)
+        self.n = 0
+
+    def fresh(self, p):
+        self.n += 1
+        return "%s%d" % (p, self.n)
+
+    def seq(self, nodes, k):
+        def go(i, acc):
+            if i == len(nodes):
+                return k(acc)
+            return self.ex(nodes[i], lambda t, ty: go(i + 1, acc + [(t, ty)]))
+        return go(0, [])
+
+    def ex(self, n, k):
+        kd = n.get("kind")
+        ks = kids(n)
+        if kd in ("ExprWithCleanups", "MaterializeTemporaryExpr", "CXXBindTemporaryExpr", "ParenExpr", "ConstantExpr"):
+            return self.ex(ks[0], k)
+        if kd in ("ImplicitCastExpr", "CXXStaticCastExpr", "CXXFunctionalCastExpr", "CStyleCastExpr"):
+            ck = n.get("castKind")
+            if ck in ("NoOp", "LValueToRValue", "ConstructorConversion", "FunctionToPointerDecay"):
+                return self.ex(ks[-1], k)
+            if ck == "FloatingToIntegral":
+                if ntype(n) != "int":
+                    raise Refuse("floating-to-integral conversion to %s" % qtype(n))
+                def cv(t, ty):
+                    if ty != "dbl":
+                        raise Refuse("floating-to-integral conversion from %s" % ty)
+                    v = self.fresh("n")
+                    return "(Except.bind (B64.toInt .i32 %s) fun %s =>\n%s)" % (t, v, k(v, "int"))
+                return self.ex(ks[-1], cv)
+            if ck == "IntegralToFloating":
+                def cv2(t, ty):
+                    if ty != "int":
+                        raise Refuse("integral-to-floating conversion from %s" % ty)
+                    return k("(B64.ofInt %s)" % t, "dbl")
+                return self.ex(ks[-1], cv2)
+            if ck == "IntegralCast":
+                if ntype(n) == "int" and ntype(ks[-1]) == "int":
+                    return self.ex(ks[-1], k)
+                raise Refuse("integral cast %s -> %s" % (qtype(ks[-1]), qtype(n)))
+            raise Refuse("cast kind %s" % ck)
+        if kd in ("CXXConstructExpr", "CXXTemporaryObjectExpr"):
+            if ntype(n) != "val" or len(ks) != 1:
+                raise Refuse("construction of %s" % qtype(n))
+            return self.ex(ks[0], lambda t, ty: k(t, "val:" + ty))
+        if kd == "IntegerLiteral":
+            return k("(%d)" % int(n["value"]), "int")
+        if kd == "FloatingLiteral":
+            b = struct.unpack("<Q", struct.pack("<d", float(n["value"])))[0]
+            return k("(0x%016X)" % b, "dbl")
+        if kd == "CXXBoolLiteralExpr":
+            return k("true" if n["value"] else "false", "bool")
+        if kd == "DeclRefExpr":
+            name = n.get("referencedDecl", {}).get("name")
+            if name in self.locals:
+                return k(*self.locals[name])
+            raise Refuse("reference to unknown variable %r" % name)
+        if kd == "MemberExpr" and ks and ks[0].get("kind") == "CXXThisExpr":
+            if n.get("name") in self.fields and ntype(n) == "int":
+                return k(n["name"], "int")
+            raise Refuse("member %r" % n.get("name"))
+        if kd == "CXXMemberCallExpr":
+            name = callee_name(n)
+            obj = peel(kids(ks[0])[0]) if ks and kids(ks[0]) else {}
+            if name == "fetch_param" and "symbol_params" in qtype(obj) and len(ks) == 1:
+                return k("p", "dbl")
+            raise Refuse("member call %s" % name)
+        if kd == "CallExpr":
+            name = callee_name(n)
+            f = peel(ks[0])
+            ftype = f.get("type", {}).get("qualType", "")
+            args = ks[1:]
+            if name in ("max", "min", "lowest") and not args and ntype(n) == "int" and "noexcept" in ftype:
+                return k("(%d)" % LIMITS[("i32", name)], "int")
+            if name in ("isnan", "isfinite") and len(args) == 1 and ftype.startswith("bool (double)"):
+                fn = {"isnan": "isNaN", "isfinite": "isFinite"}[name]
+                return self.ex(args[0], lambda t, ty: k("(B64.%s %s)" % (fn, t), "bool"))
+            if name == "between" and len(args) == 2 and ntype(n) == "int" and \
+                    all(ntype(a) == "int" for a in args):
+                return self.seq(args, lambda a: k("(between %s %s)" % (a[0][0], a[1][0]), "int"))
+            raise Refuse("call to %r of type %r" % (name, ftype))
+        if kd == "UnaryOperator":
+            op = n.get("opcode")
+            if op == "!" and ntype(n) == "bool":
+                return self.ex(ks[0], lambda t, ty: k("(!%s)" % t, "bool"))
+            if op == "-" and ntype(n) == "int" and peel(ks[0]).get("kind") == "IntegerLiteral":
+                return k("(-%d)" % int(peel(ks[0])["value"]), "int")
+            raise Refuse("unary operator %s on %s" % (op, qtype(n)))
+        if kd == "BinaryOperator":
+            op = n.get("opcode")
+            if op in ("&&", "||"):
+                return self.seq(ks, lambda a: k("(%s %s %s)" % (a[0][0], op, a[1][0]), "bool"))
+            ta, tb = ntype(ks[0]), ntype(ks[1])
+            if ta == "dbl" and tb == "dbl":
+                f = {"<": "(B64.lt %s %s)", "<=": "(B64.le %s %s)", "==": "(B64.eq %s %s)",
+                     "!=": "(!(B64.eq %s %s))"}
+                if op in f:
+                    return self.seq(ks, lambda a: k(f[op] % (a[0][0], a[1][0]), "bool"))
+                if op == ">":
+                    return self.seq(ks, lambda a: k("(B64.lt %s %s)" % (a[1][0], a[0][0]), "bool"))
+                if op == ">=":
+                    return self.seq(ks, lambda a: k("(B64.le %s %s)" % (a[1][0], a[0][0]), "bool"))
+                raise Refuse("rounding double arithmetic `%s` in integer::number" % op)
+            if ta == "int" and tb == "int" and op in ("<", "<=", ">", ">=", "==", "!="):
+                sym = {"==": "=", "!=": "≠", "<=": "≤", ">=": "≥"}.get(op, op)
+                return self.seq(ks, lambda a: k("(decide (%s %s %s))" % (a[0][0], sym, a[1][0]), "bool"))
+            raise Refuse("binary operator %s on %s, %s" % (op, qtype(ks[0]), qtype(ks[1])))
+        if kd == "ConditionalOperator":
+            return self.ex(ks[0], lambda t, ty: "(if %s then\n%s\nelse\n%s)" % (t, self.ex(ks[1], k), self.ex(ks[2], k)))
+        raise Refuse("expression node %s" % kd)
+
+    def body(self, stmts, ret):
+        if not stmts:
+            raise Refuse("control reaches the end of a non-void function")
+        s, rest = stmts[0], stmts[1:]
+        kd = s.get("kind")
+        if kd == "CompoundStmt":
+            return self.body(kids(s) + rest, ret)
+        if kd == "NullStmt":
+            return self.body(rest, ret)
+        if kd == "DeclStmt":
+            ds = kids(s)
+            def go(i):
+                if i == len(ds):
+                    return self.body(rest, ret)
+                d = ds[i]
+                if d.get("kind") == "StaticAssertDecl":
+                    return go(i + 1)
+                if d.get("kind") != "VarDecl" or not kids(d):
+                    raise Refuse("declaration %s" % d.get("kind"))
+                if "const" not in d.get("type", {}).get("qualType", ""):
+                    raise Refuse("mutable local %s" % d.get("name"))
+                def bind(t, ty):
+                    if ntype(d) != ty:
+                        raise Refuse("local %s: declared %s, initialiser %s" % (d.get("name"), qtype(d), ty))
+                    saved = dict(self.locals)
+                    self.locals[d["name"]] = (t, ty)
+                    r = go(i + 1)
+                    self.locals = saved
+                    return r
+                return self.ex(kids(d)[0], bind)
+            return go(0)
+        if kd == "IfStmt":
+            ks = kids(s)
+            if s.get("hasInit") or s.get("hasVar"):
+                raise Refuse("if with initialiser")
+            def cond(t, ty):
+                if ty != "bool":
+                    raise Refuse("if condition of type %s" % ty)
+                th = self.body([ks[1]] + rest, ret)
+                el = self.body(([ks[2]] if s.get("hasElse") else []) + rest, ret)
+                return "(if %s then\n%s\nelse\n%s)" % (t, th, el)
+            return self.ex(ks[0], cond)
+        if kd == "ReturnStmt":
+            return self.ex(kids(s)[0], ret)
+        raise Refuse("statement %s" % kd)
+
+
+def indent_num(txt):
+    out, depth = [], 1
+    for ln in txt.split("\n"):
+        ln = ln.strip()
+        out.append("  " * max(depth - (1 if ln.startswith(")") else 0), 1) + ln)
+        depth += ln.count("(") - ln.count(")")
+    return "\n".join(out)
+
+
+def ret_kinds(m):
+    """C++ type of the operand of every `return` of an eval body, as it enters `value_t`:
+    "int" (the int alternative is selected), "arg" (a raw `args[i]`), else the type's spelling."""
+    out = []
+    def pred(x):
+        return x.get("kind") == "ReturnStmt"
+    from cxx2lean import find_all
+    for r in find_all(m, pred):
+        e = kids(r)[0]
+        tr = Tr()
+        if tr.arg_index(e) is not None or tr.arg_index(peel(e)) is not None:
+            out.append("arg")
+            continue
+        e = peel(e)      # strips the value_t construction and no-op casts
+        t = qtype(e).replace("const ", "").strip()
+        out.append("int" if t in ("int", "vita::integer::base_t") else t)
+    return out
+
+
+def translate_num():
+    docs = ast_dump("int_tu.cc", "vita::integer")
+    ns = [d for d in docs if d.get("kind") == "NamespaceDecl" and d.get("name") == "integer"]
+    if not ns:
+        raise Refuse("namespace vita::integer not found")
+    classes, funcs, flags, rets, pens = [], [], [], [], []
+    number_eval = number_init = cast_body = None
+    for ns_doc in ns:
+        classes += prim_classes.class_table(ns_doc)
+        funcs += prim_classes.free_functions(ns_doc)
+        for cls, base, methods, hdr in prim_classes.class_table(ns_doc):
+            for mn in methods:
+                m = prim_classes.method(ns_doc, cls, mn)
+                if mn in ("parametric", "associative", "input"):
+                    flags.append((cls, mn, prim_classes.bool_flag(m)))
+                elif mn == "eval":
+                    rets.append((cls, ret_kinds(m)))
+                elif mn == "penalty_nvi":
+                    # `return comparison_function_penalty(ci);` – the function is translated by C13
+                    body = [c for c in kids(m) if c.get("kind") == "CompoundStmt"][0]
+                    st = kids(body)
+                    ok = len(st) == 1 and st[0].get("kind") == "ReturnStmt" and \
+                        peel(kids(st[0])[0]).get("kind") == "CallExpr" and \
+                        callee_name(peel(kids(st[0])[0])) == "comparison_function_penalty"
+                    if not ok:
+                        raise Refuse("%s::penalty_nvi is not `return comparison_function_penalty(ci)`" % cls)
+                    pens.append(cls)
+                elif mn in ("init", "display"):
+                    pass
+                else:
+                    raise Refuse("member %s::%s has a body the translator does not know" % (cls, mn))
+        m = prim_classes.method(ns_doc, "number", "eval")
+        if m is not None:
+            ps = [c for c in kids(m) if c.get("kind") == "ParmVarDecl"]
+            if len(ps) != 1 or "symbol_params" not in qtype(ps[0]):
+                raise Refuse("unexpected number::eval signature")
+            def ret(t, ty):
+                if ty != "val:int":
+                    raise Refuse("integer::number::eval returns a %s, not the int alternative" % ty)
+                return "(.ok %s)" % t
+            number_eval = TrNum().body([c for c in kids(m) if c.get("kind") == "CompoundStmt"], ret)
+        m = prim_classes.method(ns_doc, "number", "init")
+        if m is not None:
+            fields = [c.get("name") for c in kids([c for c in kids(ns_doc) if c.get("name") == "number" and
+                                                    c.get("completeDefinition")][0]) if c.get("kind") == "FieldDecl"]
+            def ret2(t, ty):
+                if ty != "dbl":
+                    raise Refuse("integer::number::init returns a %s" % ty)
+                return t
+            number_init = (fields, TrNum(fields).body([c for c in kids(m) if c.get("kind") == "CompoundStmt"], ret2))
+        for c in kids(ns_doc):
+            if c.get("kind") == "FunctionDecl" and c.get("name") == "cast" and \
+                    any(k.get("kind") == "CompoundStmt" for k in kids(c)):
+                body = [k for k in kids(c) if k.get("kind") == "CompoundStmt"][0]
+                st = kids(body)
+                e = peel(kids(st[0])[0]) if len(st) == 1 and st[0].get("kind") == "ReturnStmt" else {}
+                ps = [k for k in kids(c) if k.get("kind") == "ParmVarDecl"]
+                a = peel(kids(e)[1]) if e.get("kind") == "CallExpr" and len(kids(e)) == 2 else {}
+                if not (e.get("kind") == "CallExpr" and callee_name(e) == "get" and
+                        qtype(e).replace("const ", "").strip() in ("int", "vita::integer::base_t") and
+                        a.get("kind") == "DeclRefExpr" and len(ps) == 1 and
+                        a.get("referencedDecl", {}).get("name") == ps[0].get("name")):
+                    raise Refuse("integer::cast is not `return std::get<base_t>(v)`")
+                cast_body = "(B64.getInt v)"
+    if number_eval is None or number_init is None or cast_body is None:
+        raise Refuse("integer::number::eval / init or integer::cast not found")
+    # completeness cross-check against the header text
+    scan = prim_classes.header_scan().get("int.h")
+    if scan is None:
+        raise Refuse("int.h not found in the primitive directory")
+    missing = [c for c in scan["classes"] if c not in [x[0] for x in classes]]
+    if missing:
+        raise Refuse("classes spelled in int.h but absent from the AST table: %s" % missing)
+    return dict(classes=classes, funcs=funcs, flags=flags, rets=rets, pens=pens,
+                number_eval=number_eval, number_init=number_init, cast=cast_body)
+
+
+def emit_num(path):
+    t = translate_num()
+    L = ["-- GENERATED by tools/translate_int.py from /repo/src/kernel/gp/src/primitive/int.h",
+         "-- (integer::number, integer::cast, class / member tables; regenerated on every check run; do not edit)",
+         "import Vita.C14.Model", "namespace Vita.C14.GenNum", "open Vita Vita.IntE", ""]
+    L.append("/-- every class of namespace vita::integer: (name, base, members defined with a body, header) -/")
+    L.append("def classes : List (String × String × List String × String) :=\n  [" + ",\n   ".join(
+        '("%s", "%s", %s, "%s")' % (c, b, prim_classes.lean_str_list(ms), h) for c, b, ms, h in t["classes"]) + "]\n")
+    L.append("/-- free functions of the namespace -/")
+    L.append("def functions : List String := " + prim_classes.lean_str_list(t["funcs"]) + "\n")
+    L.append("/-- constant boolean members: (class, member, value) -/")
+    L.append("def flags : List (String × String × Bool) :=\n  [" + ", ".join(
+        '("%s", "%s", %s)' % (c, m, "true" if v else "false") for c, m, v in t["flags"]) + "]\n")
+    L.append("/-- classes whose `penalty_nvi` is `comparison_function_penalty(ci)` (translated by C13) -/")
+    L.append("def penalties : List String := " + prim_classes.lean_str_list(t["pens"]) + "\n")
+    L.append("/-- how the operand of every `return` of an `eval` enters `value_t`: \"int\" = the int alternative,\n"
+             "    \"arg\" = an argument handed back unchanged -/")
+    L.append("def retKinds : List (String × List String) :=\n  [" + ", ".join(
+        '("%s", %s)' % (c, prim_classes.lean_str_list(r)) for c, r in t["rets"]) + "]\n")
+    L.append("/-- `vita::integer::number::eval`: `p` is the bit pattern of `p.fetch_param()` -/")
+    L.append("def numberEval (p : Nat) : Except Fault Int :=\n" + indent_num(t["number_eval"]) + "\n")
+    fields, init = t["number_init"]
+    L.append("/-- `vita::integer::number::init`: `between` stands for `random::between<int>`; the result is the\n"
+             "    bit pattern of the `terminal_param_t` returned -/")
+    L.append("def numberInit (between : Int → Int → Int) %s: Nat :=\n%s\n" % (
+        "".join("(%s : Int) " % f for f in fields), indent_num(init)))
+    L.append("/-- `vita::integer::cast` = `std::get<int>`: `none` is `std::bad_variant_access` -/")
+    L.append("def cast {F : Type} (v : Val F) : Option Int :=\n  " + t["cast"] + "\n")
+    L.append("end Vita.C14.GenNum\n")
+    txt = "\n".join(L)
+    old = open(path).read() if os.path.exists(path) else None
+    if old != txt:
+        os.makedirs(os.path.dirname(path), exist_ok=True)
+        with open(path, "w") as f:
+            f.write(txt)
+    return t, old is not None and old != txt
+
+
 def translate():
     docs = ast_dump("int_tu.cc", "vita::integer")
     ns = [d for d in docs if d.get("kind") == "NamespaceDecl" and d.get("name") == "integer"]
@@ -272,6 +613,8 @@ if __name__ == "__main__":
     try:
         names, changed = emit(os.path.join(here, "lean", "Vita", "C14", "Gen.lean"))
         print("translated:", " ".join(names), "(changed)" if changed else "")
+        t, changed = emit_num(os.path.join(here, "lean", "Vita", "C14", "GenNum.lean"))
+        print("classes:", " ".join(c[0] for c in t["classes"]), "(changed)" if changed else "")
     except Refuse as e:
         print("REFUSE:", e)
         sys.exit(2)
